@@ -30,7 +30,7 @@ META = dict(
                   "equality tests, never ordered or hashed",
                   "memory-safety checks (--pointer-check --bounds-check) are switched off inside the specification code of the harness "
                   "(#pragma CPROVER check disable), they stay on for the real code",
-                  "SAT back ends of cbmc: MiniSat for insert / remove, CaDiCaL (--sat-solver cadical) for the other jobs (MiniSat does not terminate on some of their per-path queries)"],
+                  "CaDiCaL as SAT back end of cbmc (--sat-solver cadical; cbmc's default MiniSat does not terminate within the budget on some of the per-path queries)"],
     assumptions=["node bound: pre-states have at most N nodes (N per job group below); larger trees are not examined",
                  "the key lives in an int at comp_offset inside the user node that embeds parsec_rbtree_node_t first (as zone_malloc's "
                  "zone_malloc_chunk_list_t does); HIGHER_IS_BETTER as configured (A_LOWER_PRIORITY_THAN_B is '<')",
@@ -47,7 +47,7 @@ def jobs(tier):
     n_rem = 6 if full else 5       # ... for remove (5: smallest size where a rotation moves a non-nil inner subtree)
     n_qry = 6 if full else 4       # for find
     n_fol = 5 if full else 4       # for find_or_larger / minimum
-    n_upd = 4 if full else 3       # for update_node (remove + insert + find inside: most paths)
+    n_upd = 4 if full else 2       # for update_node (remove + insert + find inside: most paths)
     kops = 3 if full else 2
     to = 2400 if full else 280
     J = [Job("init", "h_rbtree.c", entry="h_init", unwind=12, defines={"WITH_OBJECT_SYSTEM": None, "NMAX": 1, "NFIX": 0},
@@ -58,14 +58,14 @@ def jobs(tier):
             J.append(Job("%s.n%d" % (op, n), "h_rbtree.c", entry=entry, unwind=n + 6, paths="lifo",
                          defines={"NFIX": n, "NMAX": max(n, 1)}, functions=fn, timeout=to, min_obligations=minob, extra_cbmc=sat,
                          bounded="pre-state: every well-formed tree with exactly %d nodes, all 32-bit keys (node bound %d in this tier)" % (n, hi)))
-    grp("insert", "h_insert", 0, n_ins, ["parsec_rbtree_insert", "parsec_rbtree_insert_fixup", "parsec_rbtree_left_rotate", "parsec_rbtree_right_rotate"], 12, sat=[])
+    grp("insert", "h_insert", 0, n_ins, ["parsec_rbtree_insert", "parsec_rbtree_insert_fixup", "parsec_rbtree_left_rotate", "parsec_rbtree_right_rotate"], 11)
     grp("remove", "h_remove", 1, n_rem, ["parsec_rbtree_remove", "parsec_rbtree_delete_fixup", "parsec_rbtree_transplant", "parsec_rbtree_minimum",
-                                         "parsec_rbtree_left_rotate", "parsec_rbtree_right_rotate"], 12, sat=[])
+                                         "parsec_rbtree_left_rotate", "parsec_rbtree_right_rotate"], 11)
     # sub-case of remove.n3 with concrete stale values in the sentinel's link fields (in the general jobs they are symbolic junk
     # pointers; a read of one of them before it is written makes those jobs explode instead of failing quickly)
     J.append(Job("remove.n3.sentinel_links_concrete", "h_rbtree.c", entry="h_remove", unwind=9, paths="lifo",
                  defines={"NFIX": 3, "NMAX": 3, "NIL_JUNK_CONCRETE": None}, functions=["parsec_rbtree_remove", "parsec_rbtree_delete_fixup"],
-                 timeout=to, min_obligations=12,
+                 timeout=to, min_obligations=11, extra_cbmc=CAD,
                  bounded="pre-state: every well-formed tree with exactly 3 nodes, sentinel parent = a stale node, sentinel children = sentinel"))
     grp("find", "h_find", 0, n_qry, ["parsec_rbtree_find"], 3)
     grp("find_or_larger", "h_find_or_larger", 0, n_fol, ["parsec_rbtree_find_or_larger"], 4)
@@ -82,7 +82,7 @@ def jobs(tier):
 MANIFEST = dict(
     category="other",
     text="Contract check of the real red-black tree: for EVERY well-formed tree with at most N nodes (N = 4 quick / 6 thorough for insert, 5 / 6 for remove, 4 / 6 for "
-         "find, 4 / 5 for find_or_larger and minimum, 3 / 4 for update_node), every 32-bit key assignment respecting the search "
+         "find, 4 / 5 for find_or_larger and minimum, 2 / 4 for update_node), every 32-bit key assignment respecting the search "
          "order (duplicates included) and every argument, CBMC discharges: insert / remove / update_node re-establish all red-black "
          "and search-tree invariants and parent pointers and change the view by exactly the node (resp. the key) concerned; "
          "update_node returns PARSEC_ERR_EXISTS exactly when another node holds the new key and then changes nothing; find returns a "
